@@ -99,7 +99,8 @@ def run(ctx):
         if is_variant(v, "None") or (v[0] == "aggr" and v[2] == "None"):
             r3.ok(key, "reset", loc(a["sp"]))
         elif caller == OPEN:
-            after = all(fl.dominates(c.bb, a["bb"]) for c in creates) and bool(creates)
+            # strict: a call is the terminator of its block, so a statement of the same block precedes it
+            after = all(c.bb != a["bb"] and fl.dominates(c.bb, a["bb"]) for c in creates) and bool(creates)
             srcs = sl.sources(v)
             same = any(z == "var:destination" for z in srcs)
             if after and same:
